@@ -7,7 +7,6 @@ CONSTANTS
   MaxKeys = 3
   EmptyTrieVerifies = TRUE
   CheckValueDepth = TRUE
-  IgnoreCachedHash = TRUE
 INIT Init
 NEXT Next
 VIEW view
